@@ -39,7 +39,7 @@ ALLOWED_AXIOMS = {
     "Eqdep.Eq_rect_eq.eq_rect_eq",
 }
 FORBIDDEN_RE = re.compile(
-    r"\b(Admitted|admit|Axiom|Axioms|Parameter|Parameters|Conjecture|Conjectures|Hypothesis|Hypotheses|"
+    r"\b(Admitted|admit|Axiom|Axioms|Parameter|Parameters|Conjecture|Conjectures|Hypothesis|Hypotheses|Variable|Variables|"
     r"Unset\s+Guard|bypass_check|Unset\s+Positivity|Unset\s+Universe|type-in-type|impredicative-set|"
     r"Admit\s+Obligations|native_compute)\b")
 
@@ -108,8 +108,19 @@ def grep_forbidden():
             continue
         src = open(p).read()
         src_nc = strip_coq_comments(src)
+        stack = []   # open Sections / Modules
         for i, line in enumerate(src_nc.split("\n"), 1):
-            if FORBIDDEN_RE.search(line):
+            m = re.match(r"\s*(Section|Module)\s+(?:Type\s+)?(\w+)", line)
+            if m and ":=" not in line:
+                stack.append((m.group(1), m.group(2)))
+            m = re.match(r"\s*End\s+(\w+)\s*\.", line)
+            if m and stack and stack[-1][1] == m.group(1):
+                stack.pop()
+            mm = FORBIDDEN_RE.search(line)
+            if mm:
+                in_section = any(k == "Section" for k, _ in stack)
+                if in_section and mm.group(1) in ("Hypothesis", "Hypotheses", "Variable", "Variables"):
+                    continue   # section-local: discharged (generalised) when the section closes
                 hits.append("%s:%d: %s" % (f, i, line.strip()))
     return hits
 
@@ -416,6 +427,16 @@ def check(pid, tier):
         if not okh:
             break
         impl_out = run_lines(harness_exe(prof), lines)
+        if hasattr(mod, "post_oracle"):
+            # oracles that relate several cases (metamorphic groups)
+            for i, what in mod.post_oracle(cases, impl_out):
+                s_, a_ = cases[i]
+                kid = match_known(mod, known, s_, a_, impl_out[i], what)
+                if kid:
+                    ctx.known_hits[kid] = ctx.known_hits.get(kid, 0) + 1
+                else:
+                    ctx.violations.append({"kind": "property-group", "profile": prof, "suite": s_, "args": a_,
+                                           "impl": impl_out[i], "what": what})
         for i, (s, a) in enumerate(cases):
             io = impl_out[i]
             ctx.evaluations += 1
